@@ -63,7 +63,7 @@ meta("C01", level="exploration",
 def _c01(bindir, tier, seed):
     if tier == QUICK:
         return shards(bindir, "fmt_driver", "C01", seed, NCPU, ["--mode", "c01", "--cases", "4000"], 600)
-    return shards(bindir, "fmt_driver", "C01", seed, NCPU, ["--mode", "c01", "--cases", "60000"], 1800) + [fuzz_job("C01", "fz_fmt", "fmt_driver", seed, 120, 8)]
+    return shards(bindir, "fmt_driver", "C01", seed, NCPU, ["--mode", "c01", "--cases", "60000"], 7200) + [fuzz_job("C01", "fz_fmt", "fmt_driver", seed, 120, 8)]
 
 
 # ---- C02 ----------------------------------------------------------------------------------------------
@@ -89,7 +89,7 @@ def c02_macro_jobs(bindir, tier, seed):
 def _c02(bindir, tier, seed):
     if tier == QUICK:
         return shards(bindir, "fmt_driver", "C02", seed, NCPU, ["--mode", "c02", "--cases", "40000"], 600) + c02_macro_jobs(bindir, tier, seed)
-    jobs = shards(bindir, "fmt_driver", "C02", seed, NCPU, ["--mode", "c02", "--cases", "400000"], 1800) + c02_macro_jobs(bindir, tier, seed)
+    jobs = shards(bindir, "fmt_driver", "C02", seed, NCPU, ["--mode", "c02", "--cases", "400000"], 7200) + c02_macro_jobs(bindir, tier, seed)
     # exhaustive 32-bit sweeps, 32 slices each
     n = 32
     for ty, lo, hi in (("i32", -2**31, 2**31 - 1), ("u32", 0, 2**32 - 1)):
@@ -119,7 +119,7 @@ meta("C03", level="fault_enumeration",
 def _c03(bindir, tier, seed):
     if tier == QUICK:
         return shards(bindir, "fmt_driver", "C03", seed, NCPU, ["--mode", "c03", "--maxlen", "7", "--cases", "3000"], 600)
-    return shards(bindir, "fmt_driver", "C03", seed, NCPU, ["--mode", "c03", "--maxlen", "10", "--cases", "20000"], 1800) + [fuzz_job("C03", "fz_fmt", "fmt_driver", seed, 120, 8)]
+    return shards(bindir, "fmt_driver", "C03", seed, NCPU, ["--mode", "c03", "--maxlen", "10", "--cases", "20000"], 7200) + [fuzz_job("C03", "fz_fmt", "fmt_driver", seed, 120, 8)]
 
 
 # ---- C04 ----------------------------------------------------------------------------------------------
@@ -137,7 +137,7 @@ meta("C04", level="exploration",
 def _c04(bindir, tier, seed):
     if tier == QUICK:
         return shards(bindir, "fmt_driver", "C04", seed, NCPU, ["--mode", "c04", "--cases", "6000"], 600)
-    return shards(bindir, "fmt_driver", "C04", seed, NCPU, ["--mode", "c04", "--cases", "60000"], 1800) + [fuzz_job("C04", "fz_fmt", "fmt_driver", seed, 120, 8)]
+    return shards(bindir, "fmt_driver", "C04", seed, NCPU, ["--mode", "c04", "--cases", "60000"], 7200) + [fuzz_job("C04", "fz_fmt", "fmt_driver", seed, 120, 8)]
 
 
 # ---- C05 / C06 / C19 (fault-free framing) and C07 (framing under injected write failures) ---------------
